@@ -8,7 +8,7 @@ predicate through EVERY model function up to `execOp`, for every exit that the c
 
 * `cellSers`, `storedSers`, `itemSers`, `queuedSers`, `dropSers` — the serials of the cells in the archetype columns,
   of the cells carried by queued `Insert` events, of the ledger `cdrops`;
-* `CLF A Q D n X` / `CL X w` — **no serial occurs twice** among stored cells, queued `Insert` payloads, the ledger and
+* `CLF A Q D n X` / `CL X w` — **no serial (other than the dummy `0` of the default cell) occurs twice** among stored cells, queued `Insert` payloads, the ledger and
   the list `X`, and all of them are below the serial counter `n`.  `X` is a parameter: the serials that are, at this
   point of the run, *somewhere else* — the payload of the event being delivered (popped from the queue, not yet
   stored), the part of the queue `flushWith` has set aside, the cells of an archetype `remove_component` has taken out
@@ -40,11 +40,10 @@ def entrySers : SlabEntry Arch → List Nat
 /-- the serials of all cells stored in any archetype column -/
 def storedSers (A : Slab Arch) : List Nat := A.entries.flatMap entrySers
 
-/-- the serial carried by a queued event: `Insert` events own a component value -/
-def itemSers (q : QItem) : List Nat :=
-  match q.ty with
-  | .ins _ => [q.pay.cell.ser]
-  | _ => []
+/-- the serial of the cell in the payload of a queued event.  `Insert` events own a component value; every other event
+    carries the default cell, whose serial `0` no value has (serials are handed out from `1`): the ledger predicate
+    ignores the serial `0`, so that the accounting does not depend on what the registry says about the event. -/
+def itemSers (q : QItem) : List Nat := [q.pay.cell.ser]
 
 def queuedSers (Q : List QItem) : List Nat := Q.flatMap itemSers
 
@@ -255,10 +254,12 @@ structure CLF (A : Slab Arch) (Q : List QItem) (D : List (Nat × Nat)) (n : Nat)
   /-- every archetype is stored at its own index -/
   idx : ∀ i a, A.get i = some a → a.index = i
   cols : ∀ i a, A.get i = some a → ColsOk a
-  /-- no serial twice among stored cells, queued `Insert` payloads, the ledger, and `X` -/
-  once : ∀ s, serCount A Q D X s ≤ 1
+  /-- no serial (other than the dummy `0`) twice among stored cells, queued payloads, the ledger, and `X` -/
+  once : ∀ s, s ≠ 0 → serCount A Q D X s ≤ 1
   /-- every such serial has been handed out -/
-  bound : ∀ s, n ≤ s → serCount A Q D X s = 0
+  bound : ∀ s, s ≠ 0 → n ≤ s → serCount A Q D X s = 0
+  /-- serials are handed out from `1` -/
+  pos : 0 < n
 
 /-- the ledger predicate of a world, with the serials `X` held elsewhere -/
 abbrev CL (X : List Nat) (w : World) : Prop := CLF w.archs w.queue w.cdrops w.nextCSerial X
@@ -268,8 +269,8 @@ abbrev CL (X : List Nat) (w : World) : Prop := CLF w.archs w.queue w.cdrops w.ne
 theorem CLF.mono {A A' : Slab Arch} {Q Q' : List QItem} {D D' : List (Nat × Nat)} {n n' : Nat} {X X' : List Nat}
     (h : CLF A Q D n X) (hi : ∀ i a, A'.get i = some a → a.index = i) (hc : ∀ i a, A'.get i = some a → ColsOk a)
     (hs : ∀ s, serCount A' Q' D' X' s ≤ serCount A Q D X s) (hn : n ≤ n') : CLF A' Q' D' n' X' :=
-  ⟨hi, hc, fun s => Nat.le_trans (hs s) (h.once s), fun s hs' => by
-    have := h.bound s (Nat.le_trans hn hs'); have := hs s; omega⟩
+  ⟨hi, hc, fun s h0 => Nat.le_trans (hs s) (h.once s h0), fun s h0 hs' => by
+    have := h.bound s h0 (Nat.le_trans hn hs'); have := hs s; omega, Nat.lt_of_lt_of_le h.pos hn⟩
 
 /-- only the serial lists change -/
 theorem CLF.mono_sers {A : Slab Arch} {Q Q' : List QItem} {D D' : List (Nat × Nat)} {n n' : Nat} {X X' : List Nat}
@@ -283,21 +284,33 @@ theorem CLF.drop_left {A Q D n} {Y X : List Nat} (h : CLF A Q D n (Y ++ X)) : CL
 theorem CLF.perm {A Q D n} {X X' : List Nat} (h : CLF A Q D n X) (hp : ∀ s, X'.count s ≤ X.count s) : CLF A Q D n X' :=
   h.mono_sers (fun s => by unfold serCount; have := hp s; omega) (Nat.le_refl _)
 
+/-- the dummy serial `0` is not counted -/
+theorem CLF.add_zero {A Q D n X} (h : CLF A Q D n X) : CLF A Q D n (0 :: X) := by
+  refine ⟨h.idx, h.cols, fun s h0 => ?_, fun s h0 hs => ?_, h.pos⟩
+  · have := h.once s h0
+    unfold serCount at this ⊢
+    rw [List.count_cons, if_neg (by simpa using Ne.symm h0)]
+    exact this
+  · have := h.bound s h0 hs
+    unfold serCount at this ⊢
+    rw [List.count_cons, if_neg (by simpa using Ne.symm h0)]
+    exact this
+
 /-- a fresh serial: nothing carries it -/
 theorem CLF.fresh {A Q D n X} (h : CLF A Q D n X) : CLF A Q D (n + 1) (n :: X) := by
-  refine ⟨h.idx, h.cols, fun s => ?_, fun s hs => ?_⟩
-  · have h1 := h.once s
+  refine ⟨h.idx, h.cols, fun s h0 => ?_, fun s h0 hs => ?_, Nat.succ_pos _⟩
+  · have h1 := h.once s h0
     unfold serCount at h1 ⊢
     rw [List.count_cons]
     split
     · rename_i he
       have : n = s := by simpa using he
       subst this
-      have := h.bound n (Nat.le_refl _)
+      have := h.bound n h0 (Nat.le_refl _)
       unfold serCount at this
       omega
     · omega
-  · have h1 := h.bound s (by omega)
+  · have h1 := h.bound s h0 (by omega)
     unfold serCount at h1 ⊢
     rw [List.count_cons]
     split
@@ -359,18 +372,19 @@ theorem CLF.setArch_same {A Q D n X} (h : CLF A Q D n X) (a : Arch)
 
 /-- the counting half of `CLF` -/
 structure CLN (A : Slab Arch) (Q : List QItem) (D : List (Nat × Nat)) (n : Nat) (X : List Nat) : Prop where
-  once : ∀ s, serCount A Q D X s ≤ 1
-  bound : ∀ s, n ≤ s → serCount A Q D X s = 0
+  once : ∀ s, s ≠ 0 → serCount A Q D X s ≤ 1
+  bound : ∀ s, s ≠ 0 → n ≤ s → serCount A Q D X s = 0
+  pos : 0 < n
 
-theorem CLF.cln {A Q D n X} (h : CLF A Q D n X) : CLN A Q D n X := ⟨h.once, h.bound⟩
+theorem CLF.cln {A Q D n X} (h : CLF A Q D n X) : CLN A Q D n X := ⟨h.once, h.bound, h.pos⟩
 
 theorem CLN.clf {A Q D n X} (h : CLN A Q D n X) (hi : ∀ i a, A.get i = some a → a.index = i)
-    (hc : ∀ i a, A.get i = some a → ColsOk a) : CLF A Q D n X := ⟨hi, hc, h.once, h.bound⟩
+    (hc : ∀ i a, A.get i = some a → ColsOk a) : CLF A Q D n X := ⟨hi, hc, h.once, h.bound, h.pos⟩
 
 theorem CLN.mono {A A' : Slab Arch} {Q Q' : List QItem} {D D' : List (Nat × Nat)} {n n' : Nat} {X X' : List Nat}
     (h : CLN A Q D n X) (hs : ∀ s, serCount A' Q' D' X' s ≤ serCount A Q D X s) (hn : n ≤ n') : CLN A' Q' D' n' X' :=
-  ⟨fun s => Nat.le_trans (hs s) (h.once s), fun s hs' => by
-    have := h.bound s (Nat.le_trans hn hs'); have := hs s; omega⟩
+  ⟨fun s h0 => Nat.le_trans (hs s) (h.once s h0), fun s h0 hs' => by
+    have := h.bound s h0 (Nat.le_trans hn hs'); have := hs s; omega, Nat.lt_of_lt_of_le h.pos hn⟩
 
 theorem CLN.dropped {A Q D n X} (ty s : Nat) (h : CLN A Q D n (s :: X)) : CLN A Q ((ty, s) :: D) n X :=
   h.mono (fun t => by
